@@ -313,6 +313,20 @@ def check_same_protocol(repo, rep, rid, cfgs=None):
         if diff or max(nb, default=None) != max(fb, default=None):
             e, n_, f_, w = diff[0] if diff else (None, None, None, "the sessions end at different minutes")
             rep.violation(rid, "phases-differ", f"({name}) after minute {e} the normal simulator does {n_}, the fast simulator {f_}: {w}")
+        # the candles of the higher timeframes are built from the same 1m candles in both simulators
+        def gens_of(sim_):
+            out_ = {}
+            for e in ss[(name, sim_)][1].events:
+                if e[0] == "gen" and e[4] is not None:
+                    os_ = tuple(MS.origin(r) for r in e[4])
+                    out_[(os_[0][0] if os_ and os_[0] else None, e[1], e[2])] = os_
+            return out_
+        gn, gf = gens_of(SIMS[0]), gens_of(SIMS[1])
+        dg = [k for k in sorted(set(gn) | set(gf), key=repr) if gn.get(k) != gf.get(k)]
+        if dg:
+            k = dg[0]
+            rep.violation(rid, "generation-differs", f"({name}) the {k[1]} candle of {k[0]} starting at minute {k[2]} is built from {gn.get(k)} in the normal simulator and from {gf.get(k)} "
+                                                     f"in the fast simulator ((symbol, minute, raw / gap-normalised, against))")
         # minutes the fast simulator leaves to its matcher must be minutes at which the normal simulator executes no strategy
         inner = [e for e in nb if e not in fb and any(x[0] == "exec" for x in nb[e])]
         if inner:
@@ -345,6 +359,11 @@ def check_generation(repo, rep, rid, cfgs=None, sims=SIMS):
                 os_ = [MS.origin(r) for r in rows]
                 if any(o is None for o in os_) or len({o[0] for o in os_}) != 1 or [o[1] for o in os_] != list(range(first, first + n)):
                     bad = f"a {gtf} candle is generated from {[(o[0], o[1]) if o else None for o in os_]}: not consecutive 1m candles of one symbol"
+                    break
+                raw = [o[1] for o in os_ if o[1] > 0 and (o[2] != "fixed" or o[3] != (o[0], o[1] - 1))]
+                if raw:
+                    bad = (f"the {gtf} candle starting at minute {first} is generated from 1m candles of minutes {raw} that are not the gap-normalised ones the matcher "
+                           f"got (the normalisation was applied to a copy): the stored 1m candles and the higher timeframe built from them disagree")
                     break
                 sy = next(s for s in syms if tag(s) == os_[0][0])
                 if gtf not in tfs or n != minutes_of(gtf) or first % minutes_of(gtf) != 0:
